@@ -393,6 +393,7 @@ std::vector<Case> generate(Ctx& ctx, int n)
 
 } // namespace
 
+#ifndef KIT_NO_MAIN
 int main(int argc, char** argv)
 {
 	Harness h;
@@ -402,3 +403,4 @@ int main(int argc, char** argv)
 	h.generate = generate;
 	return kit_main(argc, argv, h);
 }
+#endif
